@@ -297,9 +297,9 @@ def run(ctx):
             ls = [l for l in blk.strip().split("\n") if l and not l.startswith("#")]
             if ls:
                 hist.append(ls)
-    n_small = ctx.scale(280, 6000)
-    n_big = ctx.scale(10, 60)
-    hist += [gen_history(rng, ctx.scale(450, 3000), big=True) for _ in range(n_big)]     # long ones first
+    n_small = ctx.scale(280, 4000)
+    n_big = ctx.scale(10, 40)
+    hist += [gen_history(rng, ctx.scale(450, 2500), big=True) for _ in range(n_big)]     # long ones first
     hist += [gen_history(rng, rng.choice([20, 60, 150, 300])) for _ in range(n_small)]
     with ThreadPoolExecutor(max_workers=NCPU) as ex:
         results = list(ex.map(lambda ls: run_history(cpp_exe, ml_exe, requeue, ls, timeout=ctx.scale(600, 3600)), hist))
